@@ -104,6 +104,12 @@ def fitsInside (A m r : Int) : Bool :=
 def fitsOutside (A m r : Int) : Bool :=
   decide (r * r + m < A) && decide (4 * (r * r * m) < (A - r * r - m) * (A - r * r - m))
 
+/-- the ball of radius `r` stays off both faces of the mask box along an axis of length `n` — the two face
+hypotheses of `Props/C12.soft_gain_mono_axis_*` together (`r < ⌊n/2⌋` and `⌊n/2⌋ + r + 1 < n`). The driver
+reports this per axis; the harness judges "non-increasing" as a clause of the statement only along steps whose
+moving axes all have it (`Props/C12.soft_monotone_checked`). -/
+def monoAxisOk (n : Nat) (r : Int) : Bool := decide (r < centre n) && decide (centre n + r + 1 < (n : Int))
+
 /-- offsets `-t … t` -/
 def offsets (t : Nat) : List Int := (List.range (2 * t + 1)).map (fun (i : Nat) => (i : Int) - (t : Int))
 
